@@ -30,7 +30,7 @@ import numpy as np
 
 from ..cert import DM, chol_factor
 from ..common import CorrespondenceBroken
-from ..exact import Pure, call_rng, describe, present_nd
+from ..exact import Pure, call_rng, describe, present_nd, strict_fp_call
 from ..pool import Result, fold, run_pool, worker_driver
 
 RULE = ("pairs (and triples) of density operators rho = G diag(D) G^H from exact rational data (Gaussian-integer G, dimension 2..6, every rank 1..n, "
@@ -49,7 +49,11 @@ RULE = ("pairs (and triples) of density operators rho = G diag(D) G^H from exact
         "1e-2 away from 0 and 1); one pair in three also calls bures_distance / bures_angle with explicit decimals (keyword or positional) from {0,1,2,3,4,6,8,10}; one task in seven of "
         "dimension <= 4 hands one state to fidelity / matsumoto_fidelity as a cvxpy expression; guard stream: arguments built from exact spectral data that satisfy or violate is_density "
         "by a stated margin (eigenvalue -1/4, -2e-8 rejected, -5e-9 accepted; trace 3/2, 1 +- 2e-5 rejected, 1 + 5e-6 accepted; non-Hermitian by 0.25 rejected, by 1e-10 accepted; non-square; "
-        "shapes that differ), in both positions, for the eight two-argument measures; "
+        "shapes that differ), in both positions, for the eight two-argument measures, and each such argument M also as f(M, M) with the SAME array object in both positions "
+        "(positional and keyword; verdict as for f(M, M.copy())); "
+        "strict-fp stream: the corpus pairs and 40 (thorough: 400) pairs of the kinds pure / pure-mixed / identical (one in two as the same object) / orthogonal / commuting / random / near / "
+        "nearly-pure / fullrank, every function once in the default state and once with NumPy's error state set to raise for invalid / divide / overflow and the corresponding "
+        "RuntimeWarnings turned into errors (harness.exact.StrictFP): the same float must come back; "
         "fos_embedding stream: pure product states a (x) b from Gaussian-integer vectors (entries -3..3, genuinely complex except two real instances) on 2x2, 2x3, 3x2, 3x3 at levels 1, 2, 3; "
         "the picos program fidelity_of_separability hands to Problem.solve is captured (never solved), the exact product point sigma = a a^H (x) (b b^H)^(x)k, X = rho built and checked by the "
         "Lean model is written into its variables (every constraint must hold, the objective must be 1), every captured constraint / objective expression is compared with the Lean model of the "
@@ -1696,6 +1700,7 @@ def _category(st, v):
 def stream_guards(ctx, prs=None):
     """the is_density / shape guards of the eight two-argument measures against the decision-logic model (guards_value_iff, densityGuard_spec):
     a verdict 'rejected' must be a ValueError; exact density operators of equal shape must give a value"""
+    import inspect
     T = _toqito()
     drv = ctx.lean()
     rng = ctx.rng
@@ -1720,7 +1725,6 @@ def stream_guards(ctx, prs=None):
                         if fn == "matsumoto_fidelity" and out == "value" and not (exA and exB):
                             continue   # Matsumoto is only specified for full-rank states
                         # the two states by position, both by keyword, or the second by keyword (same verdict in every form)
-                        import inspect
                         pn = list(inspect.signature(T[fn]).parameters)[:2]
                         cform = ("positional", "keyword", "mixed")[(rd + order + len(fn)) % 3]
                         if cform == "positional":
@@ -1746,9 +1750,84 @@ def stream_guards(ctx, prs=None):
                                           {"function": fn, "args": desc, "impl": repr(v), "model": out, "theorem": "densityGuard_spec"})
                         elif cat != "value":
                             ctx.count(f"guard/tolerated-input/{fn}/{cat}")
+            # the SAME array object as both arguments (f(M, M)): the verdict is the one of f(M, M.copy()) -- a shortcut for identical objects must not
+            # come before the validation.  No random draws are consumed here.
+            for fam, fns in (("shape", SHAPE_FIRST), ("density", DENSITY_FIRST)):
+                out = drv.ask("c13_guard", {"family": fam, "same": True, "a": dA, "b": dA})["outcome"]
+                for fn in fns:
+                    if fn == "matsumoto_fidelity" and out == "value" and not exA:
+                        continue
+                    pn = list(inspect.signature(T[fn]).parameters)[:2]
+                    for cform in ("positional", "keyword"):
+                        if cform == "positional":
+                            st, v = _call(T[fn], A, A)
+                            st2, v2 = _call(T[fn], A, A.copy())
+                        else:
+                            st, v = _call(T[fn], **{pn[0]: A, pn[1]: A})
+                            st2, v2 = _call(T[fn], **{pn[0]: A, pn[1]: A.copy()})
+                        cat, cat2 = _category(st, v), _category(st2, v2)
+                        desc = {"fn": fn, "stream": "guards", "spec": spec, "position": "same-object", "n": n, "cplx": cplx, "mismatch": False, "A": A, "B": "the same object as A", "call_form": cform}
+                        ctx.case(desc, True, f"guard/{fn}/{spec}/same-object/{out}/{cform}")
+                        info = {"function": fn, "args": desc, "impl": repr(v), "impl_on_copy": repr(v2), "model": out, "theorem": "guards_value_iff / densityGuard_spec"}
+                        if out != "value":
+                            if not (st == "raise" and v.startswith("ValueError")):
+                                ctx.violation(f"{fn}(M, M) with the same non-density array object as both arguments ({spec}) returned {v!r}; the guard model says {out} (and {fn}(M, M.copy()) gives {v2!r})", info)
+                        elif exA:
+                            if cat != "value":
+                                ctx.violation(f"{fn}(M, M) rejects a valid density operator passed as both arguments: {v!r}", info)
+                        elif cat != cat2:
+                            ctx.violation(f"{fn}(M, M) with the same array object ({spec}) gives {v!r} but {fn}(M, M.copy()) gives {v2!r}: the verdict depends on object identity", info)
 
 
 # ------------------------------------------------------------------------------------------------
+# strict-fp stream: the value of a measure is a function of its arguments, not of NumPy's global floating-point error state
+
+
+STRICT_KINDS = ["pure", "pure-mixed", "identical", "orthogonal", "commuting", "random", "pure", "near", "nearly-pure", "fullrank"]
+STRICT_THM = ("the measures are functions of (rho, sigma) alone (Toq.C13: every defining-formula theorem, e.g. fidelity_pure_overlap, speaks of the value at the arguments); "
+              "the default-state value of the same call is the one the pair stream certifies")
+
+
+def strict_fp_pair(ctx_like, T, kind, a: State, b: State, as_complex):
+    """every measure on the pair, once in the default state and once under harness.exact.StrictFP (invalid / divide / overflow raise, the corresponding
+    RuntimeWarnings are errors): the same float must come back.  A sqrt / log / division evaluated on a rounding residue of a rank-deficient state and
+    masked afterwards is invisible in the default state and raises here."""
+    af, bf = _float_in(a, as_complex), _float_in(b, as_complex)
+    lam = min(float(np.linalg.eigvalsh(a.rho.to_complex()).min()), float(np.linalg.eigvalsh(b.rho.to_complex()).min()))
+    full = lam >= 1e-3
+    base = {"stream": "strict-fp", "kind": kind, "n": a.n, "as_complex": bool(as_complex), "a": _skey(a), "b": _skey(b)}
+    for fn in FUNCS:
+        if fn == "matsumoto_fidelity" and not full:
+            continue   # only specified for full-rank states
+        args = [af - bf] if fn == "trace_norm" else [af.copy(), bf.copy()]
+        if fn != "trace_norm" and a is b and kind == "identical":
+            args[1] = args[0] if a.n % 2 else args[1]   # identical states: also as the same object
+        st0, v0 = _call(T[fn], *args)
+        with contextlib.redirect_stdout(io.StringIO()):
+            st1, v1 = strict_fp_call(T[fn], *args)
+        ctx_like.case(dict(base, fn=fn), True, f"strict-fp/{fn}/{kind}/{'full-rank' if full else 'rank-deficient'}")
+        if st0 != "ok" or not _finite(v0):
+            continue   # judged by the pair stream
+        info = {"function": fn, "args": dict(base, fn=fn), "impl_default_state": repr(v0), "impl_strict_state": repr(v1), "theorem": STRICT_THM}
+        if st1 != "ok":
+            ctx_like.violation(f"{fn}: value depends on NumPy's floating-point error state: {v0!r} in the default state, {v1} under np.seterr(invalid/divide/over='raise') "
+                               f"({kind} pair, dim {a.n}, ranks {a.rank()}/{b.rank()})", info)
+        elif not (v1 == v0 or (_finite(v1) and abs(float(np.real(v1)) - float(np.real(v0))) <= 1e-12)):
+            ctx_like.violation(f"{fn}: value depends on NumPy's floating-point error state: {v0!r} in the default state, {v1!r} under np.seterr(invalid/divide/over='raise') "
+                               f"({kind} pair, dim {a.n})", info)
+
+
+def stream_strict_fp(ctx):
+    T = _toqito()
+    rng = ctx.rng
+    for name, a, b in corpus_pairs():
+        strict_fp_pair(ctx, T, name, a, b, False)
+    for i in range(40 if ctx.tier == "quick" else 400):
+        kind = STRICT_KINDS[i % len(STRICT_KINDS)]
+        n = int(rng.integers(2, 7))
+        cplx = bool(rng.integers(2))
+        a, b = gen_pair(rng, kind, n, cplx)
+        strict_fp_pair(ctx, T, kind, a, b, bool(rng.integers(4) == 0))
 
 
 def _is_hs_spectral(info):
@@ -1836,6 +1915,7 @@ def run(ctx, model_ok=True):
     prs2 = prs.spawn(1)[0]   # the streams added later draw from their own child generators, so the older streams see the same draws as before
     rng2 = rng.spawn(1)[0]
     rng3 = rng.spawn(1)[0]   # streams about the program of fidelity_of_separability (fos_embedding, fos_guards)
+    rng4 = rng.spawn(1)[0]   # strict-fp stream
     tasks = gen_tasks(rng, 150 if quick else 1500, prs)
     extra = {}
     run_pool_collect(ctx, work_pair, tasks, extra)
@@ -1859,6 +1939,11 @@ def run(ctx, model_ok=True):
     ctx.rng, keep = rng3, ctx.rng
     try:
         stream_fos_guards(ctx)
+    finally:
+        ctx.rng = keep
+    ctx.rng, keep = rng4, ctx.rng
+    try:
+        stream_strict_fp(ctx)
     finally:
         ctx.rng = keep
     ctx.rng, keep = rng2, ctx.rng
@@ -1889,7 +1974,11 @@ def replay(ctx, rec):
     ctx.matchers["c13-hilbert-schmidt-spectral"] = _is_hs_spectral
     a = rec.get("args", {})
     res = Result()
-    if "a" in a and "b" in a and isinstance(a["a"], dict):
+    if a.get("stream") == "strict-fp":
+        sa = state_from_key(a["a"])
+        sb = sa if a["b"] == a["a"] else state_from_key(a["b"])
+        strict_fp_pair(res, _toqito(), a.get("kind", "random"), sa, sb, a.get("as_complex", False))
+    elif "a" in a and "b" in a and isinstance(a["a"], dict):
         t = {"kind": a.get("kind", "random"), "a": state_from_key(a["a"]), "b": state_from_key(a["b"]), "cplx": a.get("cplx", True), "as_complex": a.get("as_complex", False), "Q": None, "pres": a.get("pres")}
         if rec.get("check") == "decimals":
             t["decs"] = [int(rec["decimals"])] if "decimals" in rec else list(DECS)
